@@ -115,14 +115,14 @@ impl VehicleTypes {
 }
 
 // ================================================================ Network::new : overflow depot
-//@skeleton model/src/network.rs Network::new : recv sum 0; let max_formation_count; let overflow_capacity; closure map#3 = a7357da58fea3ceb
+//@skeleton model/src/network.rs Network::new : recv sum 0; let max_formation_count; let overflow_capacity; let overflow_depot = b77ef2d76c1443b1
 
 //@frag model/src/network.rs Network::new : recv sum 0 as frag_service_trip_counts
 //@params service_trips: &StdMap<VehicleTypeIdx, Vec<ServiceTrip>>
 //@ret (r: SeqIter<usize>)
-//@closure-params map#0
+//@closure-params local#0
     &Vec<ServiceTrip>
-//@closure map#0
+//@closure local#0
     -> (c: usize) ensures c == vec@.len()
 //@sig
     ensures
@@ -135,9 +135,9 @@ impl VehicleTypes {
 //@frag model/src/network.rs Network::new : let max_formation_count as frag_max_formation_count
 //@params vehicle_types: &VehicleTypes
 //@ret (r: VehicleCount)
-//@closure-params map#1
+//@closure-params local#0
     VehicleTypeIdx
-//@closure map#1
+//@closure local#0
     -> (c: VehicleCount) requires vehicle_types.vehicle_types@.contains_key(vt) ensures c as int == vehicle_types.fc_or_1(vt)
 //@sig
     requires vehicle_types.wf_ids(),
@@ -186,9 +186,9 @@ pub proof fn lemma_tracks_sum(ms: Seq<MaintenanceSlot>)
 //@params number_of_service_nodes: usize, max_formation_count: VehicleCount, maintenance_slots: &Vec<MaintenanceSlot>
 //@ret (r: VehicleCount)
 //@viter
-//@closure-params map#2
+//@closure-params local#0
     &MaintenanceSlot
-//@closure map#2
+//@closure local#0
     -> (c: u64) ensures c == slot.track_count as u64
 //@sig
     requires
@@ -201,12 +201,40 @@ pub proof fn lemma_tracks_sum(ms: Seq<MaintenanceSlot>)
         proof { lemma_tracks_sum(maintenance_slots@); }
 //@end
 
-//@frag model/src/network.rs Network::new : closure map#3 as frag_overflow_allowed_type
-//@params vt: VehicleTypeIdx
-//@ret (r: (VehicleTypeIdx, Option<VehicleCount>))
+//@frag model/src/network.rs Network::new : let overflow_depot as frag_overflow_depot
+//@params overflow_depot_id: DepotIdx, overflow_capacity: VehicleCount, vehicle_types: &VehicleTypes
+//@ret (r: Depot)
+//@closure-params local#0
+    VehicleTypeIdx
+//@closure local#0
+    -> (p: (VehicleTypeIdx, Option<VehicleCount>)) ensures p.0 == vt, p.1 is None
 //@sig
-    ensures r.0 == vt, r.1 is None,   // the overflow depot has no per-type limit: capacity_for(vt) == total capacity
+    requires vehicle_types.wf_ids(),
+    ensures
+        // the overflow depot is located Nowhere, has the computed total capacity and NO per-type limit for every type of
+        // the instance: capacity_for(vt) == total capacity
+        r.idx == overflow_depot_id, r.location == Location::Nowhere,
+        r.total_capacity == overflow_capacity, // @obl C17.overflow_depot.total_capacity_is_the_computed_one
+        overflow_allowed_items(vehicle_types, r.allowed_types), // @obl C17.overflow_depot.no_per_type_limit_for_any_type
 //@end
+/// the allowed-types table of the overflow depot was collected from one `(type, None)` item per vehicle type
+pub open spec fn overflow_allowed_items(vts: &VehicleTypes, m: HashMap<VehicleTypeIdx, Option<VehicleCount>>) -> bool {
+    &&& hm_source(m).len() == vts.ids_sorted@.len()
+    &&& forall|i: int| 0 <= i < vts.ids_sorted@.len() ==> (#[trigger] hm_source(m)[i]).0 == vts.ids_sorted@[i] && hm_source(m)[i].1 is None
+}
+/// hence (A-lib: collect into a HashMap) every type of the instance is allowed and none has a per-type limit
+pub proof fn lemma_overflow_no_type_limit(vts: &VehicleTypes, m: HashMap<VehicleTypeIdx, Option<VehicleCount>>, vt: VehicleTypeIdx)
+    requires vts.wf_ids(), overflow_allowed_items(vts, m), vts.vehicle_types@.contains_key(vt),
+    ensures m@.contains_key(vt) && m@[vt] is None, // @obl C17.overflow_depot.no_per_type_limit_for_any_type
+{
+    broadcast use axiom_hm_collect;
+    assert(vts.ids_sorted@.contains(vt));
+    let j = choose|j: int| 0 <= j < vts.ids_sorted@.len() && vts.ids_sorted@[j] == vt;
+    assert(hm_source(m)[j].0 == vt);
+    assert(m@.contains_key(hm_source(m)[j].0));
+    let i = choose|i: int| 0 <= i < hm_source(m).len() && hm_source(m)[i] == (vt, m@[vt]);
+    assert(hm_source(m)[i].1 is None);
+}
 
 /// vehicles needed by all service trips: need(k, i) for the i-th trip of type k
 pub open spec fn need_of<T>(m: Map<VehicleTypeIdx, Vec<T>>, need: spec_fn(VehicleTypeIdx, int) -> int) -> spec_fn(VehicleTypeIdx) -> int {
@@ -381,7 +409,7 @@ pub type DateTimeString = String;
     ensures r.id == id, r.location == location, r.start == start, r.end == end, r.track_count == track_count,
 //@end
 
-//@skeleton model/src/json_serialisation/mod.rs fn create_service_trips : let arrival_time; let distance; let seated; let maximal_formation_count; let service_trip = 3a85146577840d15
+//@skeleton model/src/json_serialisation/mod.rs fn create_service_trips : let arrival_time; let distance; let seated; stmt "if passengers == 0"; let maximal_formation_count; let service_trip = e76b358ed9271911
 
 //@frag model/src/json_serialisation/mod.rs fn create_service_trips : let arrival_time as frag_arrival_time
 //@params departure_time: DateTime, route_segment: &&RouteSegment
@@ -405,6 +433,18 @@ pub type DateTimeString = String;
 //@sig
     ensures r == departure_segment.seated as u32,
         departure_segment.seated <= u32::MAX ==> r == departure_segment.seated, // @obl C17.loader.seated_of_the_departure_segment
+//@end
+//@frag model/src/json_serialisation/mod.rs fn create_service_trips : stmt "if passengers == 0" as frag_zero_passengers_rule
+//@params passengers0: PassengerCount, warnings_printed0: bool
+//@ret (r: (PassengerCount, bool))
+//@tail (passengers, warnings_printed)
+//@sig
+    ensures
+        // C17: "passengers (zero counted as one)": for EVERY segment, whether or not the warning was printed before
+        r.0 == (if passengers0 == 0 { 1u32 } else { passengers0 }), // @obl C17.loader.zero_passengers_counted_as_one
+//@first
+        let mut passengers = passengers0;
+        let mut warnings_printed = warnings_printed0;
 //@end
 //@frag model/src/json_serialisation/mod.rs fn create_service_trips : let maximal_formation_count as frag_trip_formation_limit
 //@params route_segment: &&RouteSegment
